@@ -4,7 +4,7 @@
 (* (Interp.tla: chia dialect, no flags, budget 0 = unlimited) and the      *)
 (* independent big-step reference evaluator (RefEval.tla) are the same     *)
 (* function on the classic part of the bounded universe                    *)
-(* (ProgUniverse!ClassicSeq: no program mentions an operator added    *)
+(* (ProgUniverse!ClassicIdx: no program mentions an operator added    *)
 (* after the reference).                                                   *)
 (*                                                                         *)
 (* One behaviour per (program, environment): the machine is carried        *)
@@ -15,8 +15,12 @@
 (***************************************************************************)
 EXTENDS Interp, ProgUniverse, Json
 
-VARIABLES u, m, phase
-vars == << u, m, phase >>
+\* NOTE on names: TLC decides whether a definition is constant-level (and may be evaluated once) by looking names
+\* up; a VARIABLE called like a formal parameter of some operator of the extended modules (BigInt/Ops use m, k, n ..)
+\* makes every definition that calls such an operator look state-dependent, and the universe is then re-evaluated
+\* for every initial state (measured: the model did not start).  Hence the unusual variable names.
+VARIABLES vU, vM, vPhase
+vars == << vU, vM, vPhase >>
 
 StepBound == 400
 Emit == IF "EMIT" \in DOMAIN IOEnv THEN IOEnv.EMIT # "0" ELSE TRUE
@@ -30,14 +34,14 @@ Al0(x) == [atoms |-> FreshAl.atoms + TreeAtoms(x.p) + TreeAtoms(x.e), pairs |-> 
 
 Idle == [status |-> "idle"]
 
-Init == (\E i \in 1..Len(ClassicSeq) : u = ClassicSeq[i]) /\ m = Idle /\ phase = 0
+Init == (\E i \in ClassicIdx : vU = UniverseSeq[i]) /\ vM = Idle /\ vPhase = 0
 NextM(x, s, ph) == IF ph = 0 THEN Start(x.p, x.e, << >>, {}, "chia", Al0(x), << >>) ELSE Step(s)
-Next == /\ phase = 0 \/ m.status = "run"
-        /\ m' = NextM(u, m, phase)
-        /\ phase' = 1
-        /\ u' = u
+Next == /\ vPhase = 0 \/ vM.status = "run"
+        /\ vM' = NextM(vU, vM, vPhase)
+        /\ vPhase' = 1
+        /\ vU' = vU
 
-Final == phase = 1 /\ m.status # "run"
+Final == vPhase = 1 /\ vM.status # "run"
 
 \* the verdict: "ok" / "err" when both sides agree, "abstain" when a side does not decide, "DIFF" otherwise
 Verdict(s, r) ==
@@ -46,11 +50,11 @@ Verdict(s, r) ==
   ELSE IF s.status = "err" /\ r.st = "err" THEN "err"
   ELSE "DIFF"
 
-Terminates == phase = 1 => m.steps <= StepBound
+Terminates == vPhase = 1 => vM.steps <= StepBound
 
 Agree ==
-  Final => LET r == RefOutcome(u.p, u.e)
-               v == Verdict(m, r)
+  Final => LET r == RefOutcome(vU.p, vU.e)
+               v == Verdict(vM, r)
            IN  /\ v \in {"ok", "err"}
-               /\ IF Emit THEN PrintT(<< "REF", ToJson([cls |-> u.k, verdict |-> v, steps |-> m.steps]) >>) ELSE TRUE
+               /\ IF Emit THEN PrintT(<< "REF", ToJson([cls |-> vU.k, verdict |-> v, steps |-> vM.steps]) >>) ELSE TRUE
 =============================================================================
